@@ -1314,14 +1314,6 @@ class Interp:
                 return "".join(str(x) if not isinstance(x, str) else x for x in parts)
             except Exception:
                 pass
-        if all(isinstance(x, (str, SStr)) for x in parts) and all(
-                not isinstance(v, ast.FormattedValue) or (v.conversion == -1 and v.format_spec is None) for v in e.values):
-            acc = None
-            for x in parts:
-                acc = x if acc is None else acc + x
-            if isinstance(acc, SStr):
-                acc.parts = tuple(parts)  # the template structure stays visible to regex / format theories
-            return acc
         return Fmt(parts)
 
     def e_FormattedValue(self, e, fr):
